@@ -51,7 +51,7 @@ def stepLineBoth (w : Bool) (C : Codec UInt64) (s : St UInt64) (toks : List Stri
       (r.st, if a == b then a else a ++ " [translated-code: " ++ b ++ "]")
     | none => (s, "bad-op")
 
-/-- `ts` lines of `Get/Has/Set/Delete/Iterate` (and of `DeletePrefix` / `Clear`) are answered by the hand-written model **and** by the
+/-- `ts` lines of all eight methods are answered by the hand-written model **and** by the
 regenerated method bodies (`Hive/Gen/C06_StoreCode.lean`) run under `SCode.sexec`; by `C06_store_code_refines_model` the two
 agree, and the real code is compared with both. -/
 def sstepLineBoth (w : Bool) (KC : Codec UInt16) (VC : Codec UInt64) (m : Store) (toks : List String) : Store × String :=
@@ -73,6 +73,10 @@ def sstepLineBoth (w : Bool) (KC : Codec UInt16) (VC : Codec UInt64) (m : Store)
       match parseSFaults f with
       | some F => pass Hive.Gen.C06StoreCode.sprog.clear [] F "Z"
       | none => (m', a)
+    | ["iterk", p, d, stop, f] =>
+      match unhex p, (if d == "fwd" then some false else if d == "bwd" then some true else none), stop.toNat?, parseSFaults f with
+      | some p, some bwd, some stop, some F => differ (showIterk (SCode.sexecKeys w Hive.Gen.C06StoreCode.sprog KC m p bwd stop F) m)
+      | _, _, _, _ => (m', a)
     | _ => (m', a)
 
 def dstepLine (s : DState) (toks : List String) : DState × String :=
